@@ -220,7 +220,8 @@ long checkRingHistory(const RingHistory& h, long* maxOccupancy) {
       long popsDone = static_cast<long>(std::lower_bound(popDone.begin(), popDone.end(), s.s0) - popDone.begin());
       long room = static_cast<long>(h.capacity) - (pushedBefore - popsDone);
       long mustTake = std::min(s.asked, room);
-      if (s.got < mustTake) {
+      // only a complete refusal is judged: "accepts a push iff it is not full"
+      if (s.got == 0 && mustTake >= 1) {
         if (!badPush++) exPush = J().kv("asked", s.asked).kv("got", s.got).kv("pushedBefore", pushedBefore).kv("popsCompletedBefore", popsDone).kv("capacity", static_cast<long>(h.capacity));
       }
     }
@@ -230,14 +231,14 @@ long checkRingHistory(const RingHistory& h, long* maxOccupancy) {
       long poppedBefore = static_cast<long>(std::lower_bound(popDone.begin(), popDone.end(), s.s0) - popDone.begin());
       long avail = pushesDone - poppedBefore;
       long mustTake = std::min(s.asked, avail);
-      if (s.got < mustTake) {
+      if (s.got == 0 && mustTake >= 1) {
         if (!badPop++) exPop = J().kv("asked", s.asked).kv("got", s.got).kv("pushesCompletedBefore", pushesDone).kv("poppedBefore", poppedBefore);
       }
     }
     (void)quiescentPushed;
     (void)quiescentPopped;
-    if (badPush) bad("SPSC push refused (or stored fewer elements) although the producer must have observed free space", J().kv("count", badPush).kv("example", exPush), "full-empty");
-    if (badPop) bad("SPSC pop failed (or returned fewer elements) although the consumer must have observed elements", J().kv("count", badPop).kv("example", exPop), "full-empty");
+    if (badPush) bad("SPSC push refused although the producer must have observed free space", J().kv("count", badPush).kv("example", exPush), "full-empty");
+    if (badPop) bad("SPSC pop failed although the consumer must have observed elements", J().kv("count", badPop).kv("example", exPop), "full-empty");
   }
   return problems;
 }
